@@ -88,6 +88,15 @@ func (g *gen) word(mode int, maxLen int) string {
 		n += g.r.Intn(12)
 	}
 	var sb strings.Builder
+	if (mode == 0 || mode == 1) && g.chance(0.04) {
+		// a run of one multi-code-point cluster (flags, jamo syllables, ZWJ families …): boundaries
+		// inside such a run depend on context far to the left (regional-indicator parity)
+		c := stableClusters[18+g.r.Intn(len(stableClusters)-18)]
+		for i := 0; i < n+2; i++ {
+			sb.WriteString(c)
+		}
+		return sb.String()
+	}
 	for i := 0; i < n; i++ {
 		sb.WriteString(g.cluster(mode))
 	}
